@@ -402,8 +402,8 @@ func runNext(ctx *core.Ctx, in c04Input) error {
 		}
 		t = tm.Unix()
 	}
-	if t < genLo || t > genHi {
-		return fmt.Errorf("c04: instant %d outside 1970..2037", t)
+	if (t < genLo || t > genHi) && !(tab.Fixed && t >= farLo && t <= farHi) {
+		return fmt.Errorf("c04: instant %d outside 1970..2037 (fixed offsets: 1800..2400)", t)
 	}
 	if in.Mode != "" && in.Mode != "arg" && in.Mode != "sched" {
 		return fmt.Errorf("c04: bad mode %q", in.Mode)
